@@ -1089,7 +1089,7 @@ pub fn gen(a: &Args) -> String {
     for _ in 0..n_s {
         let mut cr = r.fork();
         let (name, ops) = structs::gen(&mut cr);
-        out.stat(&format!("s_{}", name), 1);
+        out.stat(&format!("s_{}", name.split_whitespace().next().unwrap_or("")), 1);
         run_case(&mut out, &Case { id, kind: format!("s {}", name), ops });
         id += 1;
     }
